@@ -1,5 +1,5 @@
 (* Entry points of the extracted driver. *)
-From Curies.model Require Export CheckQ W3C CheckD CheckM CheckL CheckR Resolver Mapping Reference Bulk Writers.
+From Curies.model Require Export CheckQ W3C CheckD CheckM CheckL CheckR Resolver Mapping Reference Bulk Writers CheckH.
 Definition dispatch (entry prop : Z) (case obs : val) : val :=
   (if entry =? 1 then run_query prop case obs
    else if entry =? 20 then run_w3c case obs
@@ -7,7 +7,7 @@ Definition dispatch (entry prop : Z) (case obs : val) : val :=
    else if entry =? 5 then run_mutate case obs
    else if entry =? 4 then run_load prop case obs
    else if entry =? 9 then run_derive prop case obs
-   else if entry =? 10 then run_inputs_unchanged case obs
+   else if entry =? 10 then run_heap case obs
    else if entry =? 17 then run_resolver case obs
    else if entry =? 18 then run_mapping case obs
    else if entry =? 15 then run_refs case obs
